@@ -479,6 +479,77 @@ func genXR(r *rng, wild bool) *rtcp.ExtendedReport {
 	return x
 }
 
+// genHugeXR: an ExtendedReport with one report block of 64 KiB or more (block length field >= 16383; legal inside a
+// 256 KiB packet): the place where 16-bit arithmetic on block sizes would show. A handful per run (each costs the model
+// about a second).
+func genHugeXR(r *rng, kind int) *rtcp.ExtendedReport {
+	x := &rtcp.ExtendedReport{SenderSSRC: r.u32()}
+	for i, n := 0, r.intn(3); i < n; i++ {
+		x.Reports = append(x.Reports, genXRBlock(r, false))
+	}
+	at := r.intn(len(x.Reports) + 1)
+	x.Reports = append(x.Reports[:at], append([]rtcp.ReportBlock{hugeXRBlock(r, kind)}, x.Reports[at:]...)...)
+	return x
+}
+
+// hugeXRBytes: the wire form of an ExtendedReport with one block of 64 KiB or more, written here byte by byte (NOT with
+// the library's encoder, whose output would carry whatever the encoder gets wrong): a small receiver reference time
+// block, the big block (packet receipt times, or an unknown type for odd kinds), and a small DLRR block.
+func hugeXRBytes(r *rng, kind int) []byte {
+	be32 := func(b []byte, v uint32) []byte { return append(b, byte(v>>24), byte(v>>16), byte(v>>8), byte(v)) }
+	body := be32(nil, r.u32())      // sender SSRC
+	body = append(body, 4, 0, 0, 2) // receiver reference time, 2 words
+	body = be32(be32(body, r.u32()), r.u32())
+	words := 16383 + r.intn(30) // block length field: the block is 4*(words+1) >= 65536 octets
+	if kind%2 == 0 {
+		body = append(body, 3, byte(r.bits(4)), byte(words>>8), byte(words)) // packet receipt times
+		body = be32(body, r.u32())
+		body = append(body, byte(r.u8()), byte(r.u8()), byte(r.u8()), byte(r.u8()))
+		for i := 0; i < words-2; i++ {
+			body = be32(body, uint32(i)*2654435761)
+		}
+	} else {
+		body = append(body, byte(r.pick(9, 100, 255)), r.u8(), byte(words>>8), byte(words))
+		for i := 0; i < 4*words; i++ {
+			body = append(body, byte(i*31))
+		}
+	}
+	body = append(body, 5, 0, 0, 3) // DLRR with one sub-block
+	body = be32(be32(be32(body, r.u32()), r.u32()), r.u32())
+	n := len(body) / 4 // header length field = total/4 - 1 = (4+len(body))/4 - 1
+	return append([]byte{0x80, 207, byte(n >> 8), byte(n)}, body...)
+}
+
+func hugeXRBlock(r *rng, kind int) rtcp.ReportBlock {
+	switch kind % 4 {
+	case 0:
+		b := &rtcp.PacketReceiptTimesReportBlock{T: uint8(r.bits(4)), SSRC: r.u32(), BeginSeq: r.u16(), EndSeq: r.u16()}
+		for i, n := 0, 16381+r.intn(40); i < n; i++ {
+			b.ReceiptTime = append(b.ReceiptTime, uint32(i)*2654435761)
+		}
+		return b
+	case 1:
+		b := &rtcp.LossRLEReportBlock{T: uint8(r.bits(4)), SSRC: r.u32(), BeginSeq: r.u16(), EndSeq: r.u16()}
+		for i, n := 0, 32762+2*r.intn(40); i < n; i++ {
+			b.Chunks = append(b.Chunks, rtcp.Chunk(uint16(i*40503)))
+		}
+		return b
+	case 2:
+		b := &rtcp.DLRRReportBlock{}
+		for i, n := 0, 5462+r.intn(20); i < n; i++ {
+			b.Reports = append(b.Reports, rtcp.DLRRReport{SSRC: uint32(i), LastRR: uint32(i) * 7, DLRR: uint32(i) * 13})
+		}
+		return b
+	default:
+		n := 65532 + 4*r.intn(40)
+		bs := make([]byte, n)
+		for i := range bs {
+			bs[i] = byte(i * 31)
+		}
+		return &rtcp.UnknownReportBlock{XRHeader: rtcp.XRHeader{BlockType: rtcp.BlockTypeType(r.pick(8, 9, 100, 255)), TypeSpecific: rtcp.TypeSpecificField(r.u8())}, Bytes: bs}
+	}
+}
+
 // junkXRHeader: the block header of the known block kinds is filled in by Marshal (documented); whatever a value
 // carries there beforehand (a block that was marshalled or decoded before and edited since) must not reach the wire.
 func junkXRHeader(r *rng, b rtcp.ReportBlock) {
